@@ -351,7 +351,7 @@ func checkC13(c *Ctx) {
 				if !addrModes[i].ViaGit {
 					want, _ := filepath.EvalSymlinks(addrModes[i].GitDir(l))
 					prs = append(prs, protoRun{ID: ac.ID + "/" + ar.Mode, Args: []string{"--json", "--no-progress"}, Events: ar.Events,
-						Exit: ar.Exit, Stdout: ar.Stdout, Want: want})
+						Exit: ar.Exit, Stdout: ar.Stdout, Stderr: ar.Stderr, Want: want})
 				}
 				var why []string
 				if ac.Shallow {
@@ -395,7 +395,7 @@ func checkC13(c *Ctx) {
 					if !addrModes[i].ViaGit {
 						want, _ := filepath.EvalSymlinks(addrModes[i].GitDir(l))
 						prs = append(prs, protoRun{ID: sc2.ID + "/" + ar.Mode, Args: append([]string{"--json", "--no-progress"}, args2...), Events: ar.Events,
-							Exit: ar.Exit, Stdout: ar.Stdout, Want: want})
+							Exit: ar.Exit, Stdout: ar.Stdout, Stderr: ar.Stderr, Want: want})
 					}
 					why := ""
 					if ar.Exit != 0 {
